@@ -84,6 +84,14 @@ SQV_GUAR(7, FastEvolutionProxy)
 // proxy constructors, conversions and traces are instantiated by use (never executed)
 namespace sqv_driver {
 using namespace squids;
+// the three target wrappers under whatever spelling the library gives their types today (the name of an explicit
+// instantiation carries the canonical template argument, so an alias or a merged template is seen through)
+template <typename W> void probe_AssignWrapper() {}
+template <typename W> void probe_IncrementWrapper() {}
+template <typename W> void probe_DecrementWrapper() {}
+template void probe_AssignWrapper<detail::AssignWrapper>();
+template void probe_IncrementWrapper<detail::IncrementWrapper>();
+template void probe_DecrementWrapper<detail::DecrementWrapper>();
 void uses(SU_vector& a, SU_vector& b, const double* buf, double t) {
   SU_vector c1(a.Evolve(b, t));
   SU_vector c2(a.Evolve(buf));
